@@ -51,6 +51,10 @@ pub fn gen_base(prop: &str, rng: &mut Rng, small_only: bool, seed: u64) -> Case 
     if small_only && sc > 2 {
         sc = 2;
     }
+    if prop == "C08" && container.compressed() && !small_only && sc == 3 && rng.chance(1, 3) {
+        // compressed output larger than the encoder's own 32 KiB buffer needs a big incompressible value
+        sc = 4;
+    }
     // "big": straddle one, exactly one and two crypto chunks of the chosen chunk size
     let hint = if sc == 4 {
         let b = bufsize.min(100_000);
@@ -159,6 +163,16 @@ fn hard_act(rng: &mut Rng, writer: bool) -> Act {
 }
 pub fn hard_write_plan(rng: &mut Rng, env: &Env) -> IoPlan {
     let mut p = if rng.chance(1, 2) { benign_plan(rng, env, env.ref_write_calls, true) } else { IoPlan::default() };
+    if rng.chance(1, 4) {
+        // a burst: 2-3 consecutive calls fail transiently, then the device recovers (a retry that "works the second
+        // time" must not leave wrappers in a state from which they never return)
+        let start = rng.below(env.ref_write_calls + 2);
+        let kind = *rng.pick(&ErrKind::ALL);
+        for i in 0..rng.range(2, 3) {
+            p.overrides.push((start + i, Act::Err(kind, false)));
+        }
+        return p;
+    }
     let n = if rng.chance(3, 4) { 1 } else { 2 };
     for _ in 0..n {
         match rng.below(10) {
